@@ -153,108 +153,27 @@ theorem resolve_act (props : List String) (s : Stacker) (op : Op) (a : Action)
   cases op with
   | stack incl => simp [resolve] at h
   | set sid col v =>
-    cases v with
-    | scalar c => simp only [resolve, Except.ok.injEq, Outcome.act.injEq] at h; subst h; rfl
-    | array cs =>
-      simp only [resolve] at h
-      split at h
-      · cases h
-      · split at h
-        · cases h
-        · simp only [Except.ok.injEq, Outcome.act.injEq] at h; subst h; rfl
-  | map sid col f =>
-    simp only [resolve] at h
-    split at h
-    · cases h
-    · split at h
-      · cases h
-      · simp only [Except.ok.injEq, Outcome.act.injEq] at h; subst h; rfl
-  | locSet sid mask cols v =>
-    simp only [resolve] at h
-    split at h
-    · cases h
-    · simp only [Except.ok.injEq, Outcome.act.injEq] at h; subst h; rfl
-  | locMap sid mask cols f =>
-    simp only [resolve] at h
-    split at h
-    · cases h
-    · split at h
-      · cases h
-      · split at h
-        · cases h
-        · simp only [Except.ok.injEq, Outcome.act.injEq] at h; subst h; rfl
+    cases v <;> simp only [resolve] at h <;> (repeat' split at h) <;> cases h <;> rfl
+  | map sid col f => simp only [resolve] at h <;> (repeat' split at h) <;> cases h <;> rfl
+  | locSet sid mask single cols v => simp only [resolve] at h <;> (repeat' split at h) <;> cases h <;> rfl
+  | locMap sid mask cols f => simp only [resolve] at h <;> (repeat' split at h) <;> cases h <;> rfl
   | attrSet sid name v =>
-    simp only [resolve] at h
-    split at h
-    · rename_i hp
-      have hp' : name ∈ props := by simpa using hp
-      cases v with
-      | scalar c =>
-        simp only [Except.ok.injEq, Outcome.act.injEq] at h; subst h
-        simp [specAction, hp']
-      | array cs =>
-        simp only at h
-        split at h
-        · cases h
-        · split at h
-          · cases h
-          · simp only [Except.ok.injEq, Outcome.act.injEq] at h; subst h
-            simp [specAction, hp']
-    · cases h
+    cases v <;> simp only [resolve] at h <;> (repeat' split at h) <;> cases h <;> simp_all [specAction]
   | attrMap sid name f =>
-    simp only [resolve] at h
-    split at h
-    · rename_i hp
-      have hp' : name ∈ props := by simpa using hp
-      split at h
-      · cases h
-      · split at h
-        · cases h
-        · simp only [Except.ok.injEq, Outcome.act.injEq] at h; subst h
-          simp [specAction, hp']
-    · split at h
-      · cases h
-      · simp only [bind, Except.bind] at h
-        split at h <;> cases h
+    simp only [resolve, bind, Except.bind] at h <;> (repeat' split at h) <;> cases h <;> simp_all [specAction]
 
 theorem resolve_pyattr (props : List String) (s : Stacker) (op : Op) (n : String) (v : Value)
     (h : resolve props s op = .ok (.pyattr n v)) : specAction props op = none := by
   cases op with
   | stack incl => simp [resolve] at h
-  | set sid col v' =>
-    cases v' with
-    | scalar c => simp [resolve] at h
-    | array cs => simp only [resolve] at h; split at h; · cases h
-                  · split at h <;> cases h
-  | map sid col f => simp only [resolve] at h; split at h; · cases h
-                     · split at h <;> cases h
-  | locSet sid mask cols v' => simp only [resolve] at h; split at h <;> cases h
-  | locMap sid mask cols f =>
-    simp only [resolve] at h
-    split at h
-    · cases h
-    · split at h
-      · cases h
-      · split at h <;> cases h
+  | set sid col v' => cases v' <;> simp only [resolve] at h <;> (repeat' split at h) <;> cases h
+  | map sid col f => simp only [resolve] at h <;> (repeat' split at h) <;> cases h
+  | locSet sid mask single cols v' => simp only [resolve] at h <;> (repeat' split at h) <;> cases h
+  | locMap sid mask cols f => simp only [resolve] at h <;> (repeat' split at h) <;> cases h
   | attrSet sid name v' =>
-    simp only [resolve] at h
-    split at h
-    · cases v' with
-      | scalar c => cases h
-      | array cs => simp only at h; split at h; · cases h
-                    · split at h <;> cases h
-    · rename_i hp
-      have hp' : name ∉ props := by simpa using hp
-      cases v' <;> simp [specAction, hp']
+    cases v' <;> simp only [resolve] at h <;> (repeat' split at h) <;> cases h <;> simp_all [specAction]
   | attrMap sid name f =>
-    simp only [resolve] at h
-    split at h
-    · split at h
-      · cases h
-      · split at h <;> cases h
-    · rename_i hp
-      have hp' : name ∉ props := by simpa using hp
-      simp [specAction, hp']
+    simp only [resolve, bind, Except.bind] at h <;> (repeat' split at h) <;> cases h <;> simp_all [specAction]
 
 theorem resolve_grow (props : List String) (s : Stacker) (op : Op) (col : String) (cs : List Cell)
     (h : resolve props s op = .ok (.grow col cs)) :
@@ -262,57 +181,21 @@ theorem resolve_grow (props : List String) (s : Stacker) (op : Op) (col : String
   cases op with
   | stack incl => simp [resolve] at h
   | set sid c v =>
-    cases v with
-    | scalar x => simp [resolve] at h
-    | array xs =>
-      simp only [resolve] at h
-      split at h
-      · rename_i he
-        simp only [Except.ok.injEq, Outcome.grow.injEq] at h
-        obtain ⟨h1, h2⟩ := h; subst h1; subst h2
-        have he' := he
-        simp only [Bool.and_eq_true, List.isEmpty_iff] at he'
-        exact ⟨he'.1, rfl⟩
-      · split at h <;> cases h
-  | map sid c f => simp only [resolve] at h; split at h; · cases h
-                   · split at h <;> cases h
-  | locSet sid mask cols v => simp only [resolve] at h; split at h <;> cases h
-  | locMap sid mask cols f =>
-    simp only [resolve] at h
-    split at h
-    · cases h
-    · split at h
-      · cases h
-      · split at h <;> cases h
+    cases v <;> simp only [resolve] at h <;> (repeat' split at h) <;> cases h
+    rename_i he
+    simp only [Bool.and_eq_true, List.isEmpty_iff] at he
+    exact ⟨he.1, rfl⟩
+  | map sid c f => simp only [resolve] at h <;> (repeat' split at h) <;> cases h
+  | locSet sid mask single cols v => simp only [resolve] at h <;> (repeat' split at h) <;> cases h
+  | locMap sid mask cols f => simp only [resolve] at h <;> (repeat' split at h) <;> cases h
   | attrSet sid name v =>
-    simp only [resolve] at h
-    split at h
-    · rename_i hp
-      cases v with
-      | scalar x => cases h
-      | array xs =>
-        simp only at h
-        split at h
-        · rename_i he
-          simp only [Except.ok.injEq, Outcome.grow.injEq] at h
-          obtain ⟨h1, h2⟩ := h; subst h1; subst h2
-          have he' := he
-          simp only [Bool.and_eq_true, List.isEmpty_iff] at he'
-          have hp' : name ∈ props := by simpa using hp
-          refine ⟨he'.1, ?_⟩
-          simp [specAction, hp']
-        · split at h <;> cases h
-    · cases h
+    cases v <;> simp only [resolve] at h <;> (repeat' split at h) <;> cases h
+    rename_i hp he
+    simp only [Bool.and_eq_true, List.isEmpty_iff] at he
+    refine ⟨he.1, ?_⟩
+    simp_all [specAction]
   | attrMap sid name f =>
-    simp only [resolve] at h
-    split at h
-    · split at h
-      · cases h
-      · split at h <;> cases h
-    · split at h
-      · cases h
-      · simp only [bind, Except.bind] at h
-        split at h <;> cases h
+    simp only [resolve, bind, Except.bind] at h <;> (repeat' split at h) <;> cases h
 
 theorem step_of_sid (w : MapW) (op : Op) (sid : Nat) (h : op.sid? = some sid) :
     step w op =
@@ -320,7 +203,7 @@ theorem step_of_sid (w : MapW) (op : Op) (sid : Nat) (h : op.sid? = some sid) :
       | none => (w, some .nostacker)
       | some s =>
         match resolve (propsOf w.mcls) s op with
-        | .error e => (w, some e)
+        | .error e => ({ w with stackers := w.stackers.set sid (errEffect s op) }, some e)
         | .ok (.pyattr name v) =>
             ({ w with stackers := w.stackers.set sid { s with pyattrs := (name, v) :: s.pyattrs } }, none)
         | .ok (.act a) => (applyAction w sid s a, none)
@@ -344,6 +227,13 @@ theorem specStep_failed (sw : SpecW) (op : Op) : specStep sw op true = sw := by 
 
 theorem growStacker_slots (s : Stacker) (col : String) (cs : List Cell) : (growStacker s col cs).slots = s.slots := rfl
 
+/-- a failing call never touches the rows of the copy nor the list of covered lists -/
+theorem errEffect_slots (s : Stacker) (op : Op) : (errEffect s op).slots = s.slots := by
+  cases op <;> simp only [errEffect] <;> split <;> rfl
+
+theorem errEffect_srows (s : Stacker) (op : Op) : (errEffect s op).srows = s.srows := by
+  cases op <;> simp only [errEffect] <;> split <;> rfl
+
 /-- **one call of a history**: the simulation is preserved when the stacker the call goes through is up to date -/
 theorem step_sim (w : MapW) (sw : SpecW) (op : Op) (hs : Sim w sw) (hf : FreshAt w op) :
     Sim (step w op).1 (specStep sw op (step w op).2.isSome) := by
@@ -366,7 +256,12 @@ theorem step_sim (w : MapW) (sw : SpecW) (op : Op) (hs : Sim w sw) (hf : FreshAt
       have hcoup := hf sid s hsid hst
       have hhs : sw.handles[sid]? = some (s.slots.map Option.isSome) := by simp [hh, hst]
       cases hr : resolve (propsOf w.mcls) s op with
-      | error e => simp only [hst, hr, Option.isSome_some, specStep_failed]; exact ⟨hm, ht, hh⟩
+      | error e =>
+        simp only [hst, hr, Option.isSome_some, specStep_failed]
+        refine ⟨hm, ht, ?_⟩
+        simp only [hh]
+        exact (map_set_same (fun s : Stacker => s.slots.map Option.isSome) w.stackers sid (errEffect s op) s hst
+          (by simp only [errEffect_slots])).symm
       | ok o =>
         cases o with
         | pyattr name v =>
@@ -559,7 +454,7 @@ example : (contents (run cexW [.stack (some ["NoteList"]), .locMap 0 [false, tru
     = [[(.num 1000, .num 1), (.num 4000, .num 4)], [], [(.num 0, .nan)]] := by decide +kernel
 
 /-- the error branches are covered, not totalised away: a raising call changes nothing in the model -/
-example : (runTrace cexW [.stack none, .attrMap 0 "volume" (.add 1), .locSet 0 [true] ["offset"] (.num 5),
+example : (runTrace cexW [.stack none, .attrMap 0 "volume" (.add 1), .locSet 0 [true] true ["offset"] (.num 5),
                            .set 0 "offset" (.array [.num 1]), .stack (some ["SMStopList"])]).map (·.2)
     = [none, some .attr, some .index, some .value, some .value] := by decide +kernel
 
@@ -664,5 +559,489 @@ theorem mapset_broadcast (key : String) : ∀ (maps : List MapW) (sids : List Na
         obtain ⟨⟨s, hst, hc⟩, hrest⟩ := hf
         simp only [setRows, specSetT, List.map_cons, hst, memberAt, ih sids rows hrest]
         rw [mapset_chart_assign m sid s key row hst hc]
+
+end Reamber.Stack
+
+namespace Reamber.Stack
+
+/-! ### ordinary usage: every assignment goes through the most recently created stacker -/
+
+/-- invariant of such histories: the lists are well-formed and the newest stacker is coupled -/
+def LastCoupled (w : MapW) : Prop :=
+  (∀ l ∈ w.lists, WFList l) ∧
+  ∀ s, w.stackers[w.stackers.length - 1]? = some s → Coupled s.srows 0 w.lists s.slots
+
+theorem getElem?_set_last {α} (l : List α) (i : Nat) (x y : α) (hi : l[i]? = some y) (hl : l.length ≤ i + 1) :
+    (l.set i x)[(l.set i x).length - 1]? = some x := by
+  have hlt : i < l.length := by
+    by_cases h : i < l.length
+    · exact h
+    · have : l[i]? = none := by simp; omega
+      rw [this] at hi; cases hi
+  have : l.length - 1 = i := by omega
+  rw [List.length_set, this, List.getElem?_set_self hlt]
+
+theorem lastCoupled_freshAt (w : MapW) (op : Op) (hj : LastCoupled w) (hl : latestAtB w op = true) : FreshAt w op := by
+  intro sid s hsid hst
+  simp only [latestAtB, hsid, decide_eq_true_eq] at hl
+  have hlt : sid < w.stackers.length := by
+    by_cases h : sid < w.stackers.length
+    · exact h
+    · have : w.stackers[sid]? = none := by simp; omega
+      rw [this] at hst; cases hst
+  have : w.stackers.length - 1 = sid := by omega
+  exact hj.2 s (by rw [this]; exact hst)
+
+theorem lastCoupled_step (w : MapW) (op : Op) (hj : LastCoupled w) (hl : latestAtB w op = true) :
+    LastCoupled (step w op).1 := by
+  obtain ⟨hwf, hlast⟩ := hj
+  cases hsid : op.sid? with
+  | none =>
+    cases op <;> simp only [Op.sid?] at hsid <;> try cases hsid
+    rename_i incl
+    cases h : mkStacker (inclOf incl) w.lists with
+    | error e => simp only [step, h]; exact ⟨hwf, hlast⟩
+    | ok s =>
+      simp only [step, h]
+      refine ⟨hwf, ?_⟩
+      intro s' hs'
+      simp at hs'
+      subst hs'
+      exact coupled_mkStacker _ _ _ hwf h
+  | some sid =>
+    rw [step_of_sid w op sid hsid]
+    simp only [latestAtB, hsid, decide_eq_true_eq] at hl
+    cases hst : w.stackers[sid]? with
+    | none => simp only [hst]; exact ⟨hwf, hlast⟩
+    | some s =>
+      have hlt : sid < w.stackers.length := by
+        by_cases h : sid < w.stackers.length
+        · exact h
+        · have : w.stackers[sid]? = none := by simp; omega
+          rw [this] at hst; cases hst
+      have hidx : w.stackers.length - 1 = sid := by omega
+      have hcoup : Coupled s.srows 0 w.lists s.slots := hlast s (by rw [hidx]; exact hst)
+      cases hr : resolve (propsOf w.mcls) s op with
+      | error e =>
+        simp only [hst, hr]
+        refine ⟨hwf, ?_⟩
+        intro s' hs'
+        simp only at hs'
+        rw [getElem?_set_last _ _ _ _ hst hl] at hs'
+        cases hs'
+        rw [errEffect_srows, errEffect_slots]
+        exact hcoup
+      | ok o =>
+        cases o with
+        | pyattr name v =>
+          simp only [hst, hr]
+          refine ⟨hwf, ?_⟩
+          intro s' hs'
+          simp only at hs'
+          rw [getElem?_set_last _ _ _ _ hst hl] at hs'
+          cases hs'
+          exact hcoup
+        | act a =>
+          simp only [hst, hr]
+          refine ⟨wf_writeBack _ _ _ _ hwf, ?_⟩
+          intro s' hs'
+          simp only [applyAction] at hs'
+          rw [getElem?_set_last _ _ _ _ hst hl] at hs'
+          cases hs'
+          exact assign_keeps_coupled w sid s a hcoup
+        | grow col cs =>
+          obtain ⟨hnil, _⟩ := resolve_grow _ _ _ _ _ hr
+          simp only [hst, hr]
+          refine ⟨wf_writeBack _ _ _ _ hwf, ?_⟩
+          intro s' hs'
+          simp only at hs'
+          rw [getElem?_set_last _ _ _ _ hst hl] at hs'
+          cases hs'
+          rw [hnil] at hcoup
+          exact coupled_of_empty _ w.lists 0 s.slots hcoup
+
+theorem latest_fresh (w : MapW) (ops : List Op) (hj : LastCoupled w) (hl : Latest w ops) : Fresh w ops := by
+  induction ops generalizing w with
+  | nil => trivial
+  | cons op ops ih =>
+    exact ⟨lastCoupled_freshAt w op hj hl.1, ih _ (lastCoupled_step w op hj hl.1) hl.2⟩
+
+/-- **write_through_latest** — no hypothesis on the run: for every well-formed chart without live stackers (any
+lists, empty ones, any labels) and every finite history in which each assignment goes through the most recently
+created stacker of the chart (the ordinary usage: `m.stack().x = …`, `s = m.stack(); s.a op= …; s.loc[…] = …`, repeated
+re-stacking, `include_types`, raising calls), the lists at the end are what the specification run gives.  `Latest` is
+a condition on the *calls* only (which stacker each one names). -/
+theorem write_through_latest (w : MapW) (ops : List Op) (hwf : ∀ l ∈ w.lists, WFList l) (h0 : w.stackers = [])
+    (hl : Latest w ops) :
+    contents (run w ops).lists = (specRun (toSpec w) (ops.zip (errs w ops))).tbls :=
+  write_through w ops (latest_fresh w ops ⟨hwf, by intro s hs; simp [h0] at hs⟩ hl)
+
+theorem latest_of_latestTrace (w : MapW) (ops : List Op) (h : (latestTrace w ops).all id = true) : Latest w ops := by
+  induction ops generalizing w with
+  | nil => trivial
+  | cons op ops ih =>
+    simp only [latestTrace, List.all_cons, id, Bool.and_eq_true] at h
+    exact ⟨h.1, ih _ h.2⟩
+
+theorem wfList_of_wfListB (l : TList) (h : wfListB l = true) : WFList l := by
+  simp only [wfListB, Bool.and_eq_true, decide_eq_true_eq, List.all_eq_true] at h
+  exact ⟨h.1, fun r hr => h.2 r hr⟩
+
+/-- non-vacuity: the docstring usage (`stack.offset *= 2`; inline `m.stack().offset *= 2`; `loc`) is `Latest` -/
+example : Latest cexW [.stack none, .attrMap 0 "offset" (.mul 2), .stack none, .attrMap 1 "offset" (.mul 2),
+                        .locMap 1 [false, true, false] ["column"] (.add 1)] :=
+  latest_of_latestTrace _ _ (by decide +kernel)
+
+/-- …and the D25 history is not -/
+example : latestTrace cexW cexOps = [true, true, true, false] := by decide +kernel
+
+end Reamber.Stack
+
+namespace Reamber.Stack
+
+/-! ### mapset histories -/
+
+def ChartsSim : List MapW → List SpecW → Prop
+  | [], [] => True
+  | m :: ms, c :: cs => Sim m c ∧ ChartsSim ms cs
+  | _, _ => False
+
+/-- simulation invariant between a mapset with its live stackers and the abstract mapset -/
+def SetSim (w : SetW) (sw : SpecSetW) : Prop :=
+  sw.scls = w.scls ∧ ChartsSim w.maps sw.charts ∧ sw.mhandles = w.mstackers
+
+/-- every chart's stacker behind the mapset stacker is up to date (hypothesis; D25 per chart otherwise) -/
+def ChartsFreshW : List MapW → List Nat → Prop
+  | m :: ms, sid :: sids => (∀ s, m.stackers[sid]? = some s → Coupled s.srows 0 m.lists s.slots) ∧ ChartsFreshW ms sids
+  | _, _ => True
+
+def SFreshAt (w : SetW) (op : SOp) : Prop :=
+  ∀ i sids, op.ms? = some i → w.mstackers[i]? = some sids → ChartsFreshW w.maps sids
+
+def SFresh (w : SetW) : List SOp → Prop
+  | [] => True
+  | op :: ops => SFreshAt w op ∧ SFresh (sstep w op).1 ops
+
+theorem chartsSim_toSpec : ∀ (ms : List MapW), ChartsSim ms (ms.map toSpec) := by
+  intro ms
+  induction ms with
+  | nil => trivial
+  | cons m ms ih => exact ⟨sim_toSpec m, ih⟩
+
+theorem chartsSim_tbls : ∀ (ms : List MapW) (cs : List SpecW), ChartsSim ms cs →
+    ms.map (fun m => contents m.lists) = cs.map (·.tbls) := by
+  intro ms
+  induction ms with
+  | nil => intro cs h; cases cs with
+    | nil => rfl
+    | cons c cs => exact absurd h (by simp [ChartsSim])
+  | cons m ms ih =>
+    intro cs h
+    cases cs with
+    | nil => exact absurd h (by simp [ChartsSim])
+    | cons c cs =>
+      obtain ⟨h1, h2⟩ := h
+      simp only [List.map_cons, ih cs h2, h1.2.1]
+
+theorem sim_handles_length (m : MapW) (c : SpecW) (h : Sim m c) : c.handles.length = m.stackers.length := by
+  rw [h.2.2]; simp
+
+theorem freshAt_stack (m : MapW) (incl : Option (List String)) : FreshAt m (.stack incl) := by
+  intro sid s hsid _; simp [Op.sid?] at hsid
+
+/-- `[_.stack() for _ in self]` against "every chart gets a new handle" -/
+theorem stackAll_sim : ∀ (maps : List MapW) (charts : List SpecW), ChartsSim maps charts →
+    ∀ ms sids, stackAll maps = .ok (ms, sids) →
+      ChartsSim ms (charts.map (fun c => specStep c (.stack none) false)) ∧ sids = charts.map (fun c => c.handles.length) := by
+  intro maps
+  induction maps with
+  | nil =>
+    intro charts h ms sids hs
+    cases charts with
+    | nil => simp only [stackAll, Except.ok.injEq, Prod.mk.injEq] at hs; obtain ⟨rfl, rfl⟩ := hs; exact ⟨trivial, rfl⟩
+    | cons c cs => exact absurd h (by simp [ChartsSim])
+  | cons m maps ih =>
+    intro charts h ms sids hs
+    cases charts with
+    | nil => exact absurd h (by simp [ChartsSim])
+    | cons c cs =>
+      obtain ⟨h1, h2⟩ := h
+      have hstep := step_sim m c (.stack none) h1 (freshAt_stack m none)
+      simp only [stackAll] at hs
+      cases hres : step m (.stack none) with
+      | mk m' e =>
+        rw [hres] at hs hstep
+        cases e with
+        | some e => simp at hs
+        | none =>
+          simp only at hs
+          cases hrest : stackAll maps with
+          | error e => rw [hrest] at hs; simp at hs
+          | ok p =>
+            obtain ⟨ms', sids'⟩ := p
+            rw [hrest] at hs
+            simp only [Except.ok.injEq, Prod.mk.injEq] at hs
+            obtain ⟨rfl, rfl⟩ := hs
+            obtain ⟨ih1, ih2⟩ := ih cs h2 ms' sids' hrest
+            simp only [Option.isSome_none] at hstep
+            exact ⟨⟨hstep, ih1⟩, by simp [ih2, sim_handles_length m c h1]⟩
+
+theorem step_set_aligned (m : MapW) (sid : Nat) (s : Stacker) (key : String) (row : List Cell)
+    (hst : m.stackers[sid]? = some s) :
+    step m (.set sid key (.array (alignRow s.srows.length row)))
+      = (applyAction m sid s ⟨allSel, [key], fun i _ _ => (alignRow s.srows.length row).getD i .nan⟩, none) := by
+  rw [step_of_sid m _ sid rfl]
+  simp only [hst]
+  have hres : resolve (propsOf m.mcls) s (.set sid key (.array (alignRow s.srows.length row)))
+      = .ok (.act ⟨allSel, [key], fun i _ _ => (alignRow s.srows.length row).getD i .nan⟩) := by
+    simp only [resolve, alignRow_length]
+    by_cases he : s.srows = []
+    · simp [he, alignRow]
+    · have : ¬ (s.srows.isEmpty = true) := by simpa using he
+      simp [this]
+  simp only [hres]
+
+/-- one chart of a mapset frame assignment keeps the simulation -/
+theorem chart_set_sim (m : MapW) (c : SpecW) (sid : Nat) (key : String) (row : List Cell) (hs : Sim m c)
+    (hf : ∀ s, m.stackers[sid]? = some s → Coupled s.srows 0 m.lists s.slots) :
+    Sim (step m (.set sid key (.array (alignRow (match m.stackers[sid]? with | some s => s.srows.length | none => 0) row)))).1
+        (specStep c (.set sid key (.array row)) false) := by
+  obtain ⟨hm, ht, hh⟩ := hs
+  rw [specStep_of_sid c _ sid rfl]
+  cases hst : m.stackers[sid]? with
+  | none =>
+    have hnone : c.handles[sid]? = none := by simp [hh, hst]
+    rw [step_of_sid m _ sid rfl]
+    simp only [hst, specAction, hnone]
+    exact ⟨hm, ht, hh⟩
+  | some s =>
+    have hhs : c.handles[sid]? = some (s.slots.map Option.isSome) := by simp [hh, hst]
+    simp only [specAction, hhs]
+    refine ⟨?_, ?_, ?_⟩
+    · rw [step_set_aligned m sid s key row hst]; exact hm
+    · have := mapset_chart_assign m sid s key row hst (hf s hst)
+      simp only [ht]; exact this.symm
+    · rw [step_set_aligned m sid s key row hst]
+      simp only [hh, applyAction]
+      exact (map_set_same (fun s : Stacker => s.slots.map Option.isSome) m.stackers sid
+        (assign s ⟨allSel, [key], fun i _ _ => (alignRow s.srows.length row).getD i .nan⟩) s hst rfl).symm
+
+theorem setRows_sim (key : String) : ∀ (maps : List MapW) (charts : List SpecW) (sids : List Nat) (rows : List (List Cell)),
+    ChartsSim maps charts → ChartsFreshW maps sids →
+    ChartsSim (setRows key maps sids rows) (specSetRows key charts sids rows) := by
+  intro maps
+  induction maps with
+  | nil =>
+    intro charts sids rows h _
+    cases charts with
+    | nil => cases sids <;> cases rows <;> simp [setRows, specSetRows, ChartsSim]
+    | cons c cs => exact absurd h (by simp [ChartsSim])
+  | cons m ms ih =>
+    intro charts sids rows h hf
+    cases charts with
+    | nil => exact absurd h (by simp [ChartsSim])
+    | cons c cs =>
+      cases sids with
+      | nil => simpa [setRows, specSetRows] using h
+      | cons sid sids =>
+        cases rows with
+        | nil => simpa [setRows, specSetRows] using h
+        | cons row rows =>
+          obtain ⟨h1, h2⟩ := h
+          obtain ⟨f1, f2⟩ := hf
+          simp only [setRows, specSetRows]
+          exact ⟨chart_set_sim m c sid key row h1 f1, ih cs sids rows h2 f2⟩
+
+theorem step_map_noerr (m : MapW) (sid : Nat) (s : Stacker) (key : String) (f : Fn)
+    (hst : m.stackers[sid]? = some s) (hk : s.scols.contains key = true) (hv : s.voidcols.contains key = false)
+    (he : evalOk f allSel [key] 0 s.srows = true) : (step m (.map sid key f)).2 = none := by
+  rw [step_of_sid m _ sid rfl]
+  simp only [hst, resolve, hk, hv, he]
+  simp
+
+theorem mapRows_sim (key : String) (f : Fn) : ∀ (maps : List MapW) (charts : List SpecW) (sids : List Nat),
+    ChartsSim maps charts → ChartsFreshW maps sids → getErr key (some f) maps sids = none →
+    ChartsSim (mapRows key f maps sids) (specMapRows key f charts sids) := by
+  intro maps
+  induction maps with
+  | nil =>
+    intro charts sids h _ _
+    cases charts with
+    | nil => cases sids <;> simp [mapRows, specMapRows, ChartsSim]
+    | cons c cs => exact absurd h (by simp [ChartsSim])
+  | cons m ms ih =>
+    intro charts sids h hf hg
+    cases charts with
+    | nil => exact absurd h (by simp [ChartsSim])
+    | cons c cs =>
+      cases sids with
+      | nil => simpa [mapRows, specMapRows] using h
+      | cons sid sids =>
+        obtain ⟨h1, h2⟩ := h
+        obtain ⟨f1, f2⟩ := hf
+        simp only [getErr] at hg
+        cases hst : m.stackers[sid]? with
+        | none => simp [hst] at hg
+        | some s =>
+          simp only [hst] at hg
+          split at hg
+          · cases hg
+          · rename_i hk
+            cases hrest : getErr key (some f) ms sids with
+            | some e => simp [hrest] at hg
+            | none =>
+              simp only [hrest] at hg
+              split at hg
+              · rename_i hok
+                simp only [Bool.and_eq_true, Bool.not_eq_true'] at hok
+                have hk' : s.scols.contains key = true := by simpa using hk
+                have hne := step_map_noerr m sid s key f hst hk' hok.1 hok.2
+                have hstep := step_sim m c (.map sid key f) h1
+                  (by intro sid' s' hsid' hs'; simp only [Op.sid?, Option.some.injEq] at hsid'; subst hsid'; exact f1 s' hs')
+                rw [hne] at hstep
+                simp only [mapRows, specMapRows]
+                exact ⟨hstep, ih cs sids h2 f2 hrest⟩
+              · cases hg
+
+/-- **one call on a mapset stacker** keeps the simulation -/
+theorem sstep_sim (w : SetW) (sw : SpecSetW) (op : SOp) (hs : SetSim w sw) (hf : SFreshAt w op) :
+    SetSim (sstep w op).1 (specSStep sw op (sstep w op).2.isSome) := by
+  obtain ⟨hc, hch, hmh⟩ := hs
+  cases op with
+  | stack =>
+    simp only [sstep]
+    cases hsa : stackAll w.maps with
+    | error e => simp only [Option.isSome_some, specSStep, if_true]; exact ⟨hc, hch, hmh⟩
+    | ok p =>
+      obtain ⟨ms, sids⟩ := p
+      obtain ⟨h1, h2⟩ := stackAll_sim w.maps sw.charts hch ms sids hsa
+      simp only [Option.isSome_none, specSStep, Bool.false_eq_true, if_false]
+      exact ⟨hc, h1, by simp [hmh, h2]⟩
+  | set i key rows =>
+    simp only [sstep]
+    cases hi : w.mstackers[i]? with
+    | none => simp only [Option.isSome_some, specSStep, if_true]; exact ⟨hc, hch, hmh⟩
+    | some sids =>
+      have hi' : sw.mhandles[i]? = some sids := by rw [hmh]; exact hi
+      simp only [Option.isSome_none, specSStep, Bool.false_eq_true, if_false, hi']
+      exact ⟨hc, setRows_sim key _ _ sids rows hch (hf i sids rfl hi), hmh⟩
+  | map i key f =>
+    simp only [sstep]
+    cases hi : w.mstackers[i]? with
+    | none => simp only [Option.isSome_some, specSStep, if_true]; exact ⟨hc, hch, hmh⟩
+    | some sids =>
+      have hi' : sw.mhandles[i]? = some sids := by rw [hmh]; exact hi
+      simp only
+      cases hg : getErr key (some f) w.maps sids with
+      | some e => simp only [Option.isSome_some, specSStep, if_true]; exact ⟨hc, hch, hmh⟩
+      | none =>
+        simp only [Option.isSome_none, specSStep, Bool.false_eq_true, if_false, hi']
+        exact ⟨hc, mapRows_sim key f _ _ sids hch (hf i sids rfl hi) hg, hmh⟩
+  | attrSet i name rows =>
+    simp only [sstep]
+    cases hi : w.mstackers[i]? with
+    | none => simp only [Option.isSome_some, specSStep, if_true]; exact ⟨hc, hch, hmh⟩
+    | some sids =>
+      have hi' : sw.mhandles[i]? = some sids := by rw [hmh]; exact hi
+      simp only
+      by_cases hp : (setPropsOf w.scls).contains name = true
+      · simp only [hp, if_true, Option.isSome_none, specSStep, Bool.false_eq_true, if_false, hi', hc]
+        exact ⟨rfl, setRows_sim name _ _ sids rows hch (hf i sids rfl hi), hmh⟩
+      · simp only [hp, Option.isSome_none, specSStep, Bool.false_eq_true, if_false, hi', hc]
+        exact ⟨hc, hch, hmh⟩
+  | attrMap i name f =>
+    simp only [sstep]
+    cases hi : w.mstackers[i]? with
+    | none => simp only [Option.isSome_some, specSStep, if_true]; exact ⟨hc, hch, hmh⟩
+    | some sids =>
+      have hi' : sw.mhandles[i]? = some sids := by rw [hmh]; exact hi
+      simp only
+      by_cases hp : (setPropsOf w.scls).contains name = true
+      · simp only [hp, if_true]
+        cases hg : getErr name (some f) w.maps sids with
+        | some e => simp only [Option.isSome_some, specSStep, if_true]; exact ⟨hc, hch, hmh⟩
+        | none =>
+          simp only [Option.isSome_none, specSStep, Bool.false_eq_true, if_false, hi', hc, hp, if_true]
+          exact ⟨rfl, mapRows_sim name f _ _ sids hch (hf i sids rfl hi) hg, hmh⟩
+      · simp only [hp]
+        by_cases ha : (w.msattrs.getD i []).contains name = true
+        · simp only [ha, if_true, Option.isSome_none, specSStep, Bool.false_eq_true, if_false, hi', hc, hp]
+          exact ⟨hc, hch, hmh⟩
+        · simp only [ha, Option.isSome_some, specSStep, if_true]
+          exact ⟨hc, hch, hmh⟩
+
+/-- **mapset_write_through** — for every mapset (any number of charts, charts of different lengths, empty charts) and
+every finite history of `ms.stack()`, `stack.<prop> = frame`, `stack[col] = frame`, `stack.<prop> op= q`,
+`stack[col] op= q` (raising calls included) through any number of mapset stackers, provided every call goes through
+stackers that are up to date (`SFresh`): every chart at the end is what the specification run gives — per chart, the
+single-chart per-list assignment of its row of the frame / of the arithmetic. -/
+theorem mapset_write_through (w : SetW) (ops : List SOp) (hfresh : SFresh w ops) :
+    (srun w ops).maps.map (fun m => contents m.lists)
+      = (specSRun (toSpecSet w) (ops.zip (serrs w ops))).charts.map (·.tbls) := by
+  have key : ∀ (ops : List SOp) (w : SetW) (sw : SpecSetW), SetSim w sw → SFresh w ops →
+      SetSim (srun w ops) (specSRun sw (ops.zip (serrs w ops))) := by
+    intro ops
+    induction ops with
+    | nil => intro w sw hs _; exact hs
+    | cons op ops ih =>
+      intro w sw hs hf
+      simp only [srun, serrs, List.zip_cons_cons, specSRun]
+      exact ih _ _ (sstep_sim w sw op hs hf.1) hf.2
+  have h0 : SetSim w (toSpecSet w) := ⟨rfl, chartsSim_toSpec w.maps, rfl⟩
+  exact chartsSim_tbls _ _ (key ops w _ h0 hfresh).2.1
+
+end Reamber.Stack
+
+namespace Reamber.Stack
+
+theorem chartsFreshW_of_B : ∀ (maps : List MapW) (sids : List Nat), chartsFreshB maps sids = true → ChartsFreshW maps sids := by
+  intro maps
+  induction maps with
+  | nil => intro sids _; cases sids <;> trivial
+  | cons m ms ih =>
+    intro sids h
+    cases sids with
+    | nil => trivial
+    | cons sid sids =>
+      simp only [chartsFreshB, Bool.and_eq_true] at h
+      refine ⟨?_, ih sids h.2⟩
+      intro s hs
+      have h1 := h.1
+      simp only [hs] at h1
+      exact coupled_of_coupledB _ _ _ _ h1
+
+theorem sfresh_of_sfreshTrace (w : SetW) (ops : List SOp) (h : (sfreshTrace w ops).all id = true) : SFresh w ops := by
+  induction ops generalizing w with
+  | nil => trivial
+  | cons op ops ih =>
+    simp only [sfreshTrace, List.all_cons, id, Bool.and_eq_true] at h
+    refine ⟨?_, ih _ h.2⟩
+    intro i sids hi hs
+    have h1 := h.1
+    simp only [sfreshAtB, hi, hs] at h1
+    exact chartsFreshW_of_B _ _ h1
+
+def cexSet : SetW :=
+  ⟨"MapSet",
+   [cexW,
+    ⟨"Map", [⟨"hits", "HitList", ⟨["offset", "column"], [⟨3, [("offset", .num 500), ("column", .num 0)]⟩]⟩⟩,
+             ⟨"holds", "HoldList", ⟨["offset", "column", "length"], []⟩⟩,
+             ⟨"bpms", "BpmList", ⟨["offset", "bpm", "metronome"], []⟩⟩], []⟩],
+   [], []⟩
+
+def cexSetOps : List SOp :=
+  [.stack, .attrMap 0 "offset" (.mul 2), .set 0 "column" [[.num 5], [.num 6, .num 7]], .attrMap 0 "volume" (.add 1)]
+
+/-- non-vacuity of `mapset_write_through`: charts of different lengths, a frame whose rows are shorter / longer than
+the charts, a raising call — the history is `SFresh` and changes the charts -/
+example : SFresh cexSet cexSetOps := sfresh_of_sfreshTrace _ _ (by decide +kernel)
+
+example : (srun cexSet cexSetOps).maps.map (fun m => (contents m.lists).map (fun t => t.rows.map (fun r => (getC r "offset", getC r "column"))))
+    = [[[(.num 2000, .num 5), (.num 4000, .nan)], [], [(.num 0, .nan)]], [[(.num 1000, .num 6)], [], []]]
+    ∧ serrs cexSet cexSetOps = [false, false, false, true] := by decide +kernel
+
+/-- …and a second live mapset stacker is stale in the same way as for a single chart (D25) -/
+example : sfreshTrace cexSet [.stack, .stack, .attrMap 1 "offset" (.add 1), .attrMap 0 "column" (.add 1)]
+    = [true, true, true, false] := by decide +kernel
 
 end Reamber.Stack
